@@ -336,7 +336,22 @@ impl<'a, 'b, 'c> Gen<'a, 'b, 'c> {
         let class = &class_of(w);
         for _ in 0..self.states {
             let both = !matches!(kind, Kind::Plain) || self.rng.chance(1, 4);
-            let st = mk_state(self.rng, w, false, kind, simd);
+            let mut st = mk_state(self.rng, w, false, kind, simd);
+            // flag-setting add/sub in the register forms: a third of the states give BOTH source operands a signed
+            // boundary value of the operand width (INT_MIN, INT_MAX, 0, 1, -1) — overflow slips live at exactly one value
+            if class.starts_with("addsub_") && !class.starts_with("addsub_imm") && (w >> 29) & 1 == 1 && self.rng.chance(1, 3) {
+                let sf = (w >> 31) & 1;
+                let (mn, mx): (u64, u64) = if sf == 1 { (1 << 63, (1 << 63) - 1) } else { (1 << 31, (1 << 31) - 1) };
+                let pool = [mn, mn, mx, 0, 1, if sf == 1 { u64::MAX } else { 0xffff_ffff }];
+                for field in [(w >> 16) & 31, (w >> 5) & 31] {
+                    if field != 31 || class.starts_with("addsub_ext") {
+                        let v = *self.rng.pick(&pool);
+                        // W forms must ignore the upper half: leave garbage there half of the time
+                        let v = if sf == 0 && self.rng.chance(1, 2) { v | (self.rng.next() << 32) } else { v };
+                        st.set(&xname(field), v as u128);
+                    }
+                }
+            }
             let bytes = w.to_le_bytes();
             self.em.case(&format!("aarch64/{}", class), format!("ins aarch64 {} 0x{:x} | {}", bytes_hex(&bytes), addr, st.text()));
             if both {
